@@ -12,10 +12,99 @@ LEVEL = "proof"
 RULE = execprop.RULE + "; plus the same with the real Slurm / LSF check_jobs in the loop (harness/viasched.py)"
 
 
+def gating_gap_case(ctx, k):
+    """Failure is propagated along the adjacency table, launches are gated by the dependency sets: a staged
+    graph in which a step is a child of `p` without waiting for `p` can run that child to success before `p`
+    fails.  Generated specifications are staged; where such a pair exists the real graph is driven through
+    exactly that history (everything runs until the child is out, then `p` fails) and judged by its outcome."""
+    import expprop
+    import scripted as S
+    from corr import Case
+    import studysim as SS
+    c = expprop.one_case(ctx, "gap%d" % k, adversarial=False, pgen=False,
+                         monitor=lambda spec, study, params, steps, dag, hash_ws, root:
+                         SS.expansion_monitor(params, steps, dag, hash_ws))
+    if c is None or c.dag is None:
+        return None
+    if any("instance-name-collision" in d for _cl, d in c.monitor):
+        return None      # two classes with one name (known finding of C08): the graph is not the study's
+    dag = c.dag
+    names = [n for n in dag.values if n != "_source"]
+    gaps = [(p, ch) for p, chs in dag.adjacency_table.items() for ch in chs
+            if p != "_source" and p not in dag._dependencies[ch]]
+    data = {"kind": "staged-gating", "spec": c.data["spec"], "hash_ws": c.data["hash_ws"], "gaps": gaps[:3]}
+    if not gaps:
+        return Case(data, [], [], [], False)
+    p, ch = gaps[0]
+    S.install()
+    try:
+        dag.set_adapter({"type": "scripted"})
+        S.WORLD.reset(sched={nm: True for nm in names})
+        history, mon = [], []
+        for _poll in range(3 * len(names) + 12):
+            out = dag.values[ch].status.name != "INITIALIZED"
+            reports = []
+            p_live = p in dag.in_progress
+            for nm in list(dag.in_progress):
+                if nm == p:
+                    reports.append((nm, "FAILED" if out else "RUNNING"))
+                elif nm == ch:
+                    # the child is still running when `p` fails and finishes in a later poll
+                    reports.append((nm, "FINISHED" if out and not p_live else "RUNNING"))
+                elif out:
+                    reports.append((nm, "FINISHED"))
+                else:
+                    # everything else succeeds, so that the child is held back by `p` alone
+                    reports.append((nm, "FINISHED"))
+            S.WORLD.poll_code, S.WORLD.poll_calls, S.WORLD.poll_reports = "OK", 0, reports
+            S.WORLD.events = []
+            try:
+                verdict = dag.execute_ready_steps().name
+            except Exception as e:      # noqa
+                verdict = "RAISE:%s" % type(e).__name__
+            history.append({"reports": reports, "returned": verdict})
+            if verdict != "RUNNING":
+                break
+        data["history"] = history
+        if dag.values[p].status.name == "FAILED" and dag.values[ch].status.name == "FINISHED":
+            mon.append(("no-dependent-runs", "staged study: %s is a child of %s in the adjacency table but does not "
+                        "wait for it; with %s failing after %s was launched, %s ends FINISHED below a FAILED step"
+                        % (ch, p, p, ch, ch)))
+        return Case(data, [], [], mon, True)
+    finally:
+        S.install()
+
+
 def run(ctx, escalated=False):
     quick = ctx.tier == "quick" and not escalated
     cases = execprop.run(ctx, "C02", escalated, finish=False)
     cases += execprop.via_cases(ctx, "C02", 400 if quick else 8000, faulty=False)
-    diffs = compare(cases)
+    # the same at the level of staged studies: generated parameterised specifications (funnels, shared
+    # instances, repeated rows) through Study.stage and the real conductor loop with a scheduler that fails jobs
+    import os
+    import shutil
+    import condsim
+    import scripted as S
+    from corr import Case
+    extra = []
+    for k in range(80 if quick else 2500):
+        r = condsim.run(ctx, ctx.rng, k)
+        if r is None:
+            continue
+        extra.append(Case({"kind": "conductor", "spec": r["spec"], "polls": r["polls"], "returned": r["ret"]},
+                          [], [], r["mon"]["C02"][:3], r["ret"] == "FAILURE"))
+        ctx.count("conductor:" + str(r["ret"]))
+        if k % 30 == 29:
+            shutil.rmtree(os.path.join(ctx.scratch, "cond"), ignore_errors=True)
+    for k in range(900 if quick else 12000):
+        c = gating_gap_case(ctx, k)
+        if c is not None:
+            extra.append(c)
+            ctx.count("staged-gating:" + ("gap" if c.data["gaps"] else "closed"))
+        if k % 40 == 39:
+            shutil.rmtree(os.path.join(ctx.scratch, "st"), ignore_errors=True)
+    S.install()
+    cases = cases + extra
+    diffs = compare([c for c in cases if c.lines])
     account(ctx, cases)
     judge(ctx, cases, diffs, "execution-graph+adapters", shrink=execprop.shrink_factory(ctx, "C02"))
